@@ -104,5 +104,5 @@ Print Assumptions two_bits_detected_upto.
 (** Non-vacuity: the standard check string "123456789". *)
 Example crc_check_value :
   crc_update 0 [49; 50; 51; 52; 53; 54; 55; 56; 57] = crc_spec [49; 50; 51; 52; 53; 54; 55; 56; 57]
-  /\ crc_update 0 [49; 50; 51; 52; 53; 54; 55; 56; 57] = 768278432.
+  /\ crc_update 0 [49; 50; 51; 52; 53; 54; 55; 56; 57] = 771566984.
 Proof. exact Crc_Proofs.crc_check_value. Qed.
